@@ -4,6 +4,8 @@
 //! case format (see lean/EmitModel/Driver/C14.lean):
 //!   (c14 (sig LOGS TRACES METRICS) E (props (xKEY V)…))          E, V: see evt.rs
 //! output: `<logs|traces|metrics|none> discard=<delta of event_discarded>`
+//! Only the ROUTING is observed (which signal's endpoint received the record, the discard counter) - never the
+//! recorded time value (instants past 2^64 ns wrap: C13's known finding c13-f6-time-wraps).
 
 use crate::collector::{Collector, Signal};
 use crate::evt::{self, Ext, D, V};
@@ -86,7 +88,7 @@ fn run_c14(line: &str) -> String {
             if let Some(m) = &r.malformed {
                 fail.get_or_insert(format!("malformed-request({})", m));
             }
-            if !r.resp.is_ack() {
+            if !r.resp.is_ack(r.grpc) {
                 fail.get_or_insert("collector-did-not-ack".into());
             }
             for rec in r.records.iter().flatten() {
@@ -106,6 +108,11 @@ fn run_c14(line: &str) -> String {
         }
         if hits.len() + discarded != 1 {
             fail.get_or_insert(format!("exports({})+discards({})!=1", hits.len(), discarded));
+        }
+        // "everything else ... through the logs signal": logs takes every event, so with logs configured nothing
+        // is ever dropped - whatever the kind, the properties or the instants of the extent
+        if sig.0 && discarded != 0 {
+            fail.get_or_insert(format!("discarded({})-although-the-logs-signal-is-configured", discarded));
         }
         if let Some(h) = hits.first() {
             let configured = match h {
@@ -189,11 +196,42 @@ fn kind_variants() -> Vec<(&'static str, Vec<Vec<V>>)> {
     ]
 }
 
+/// first instant (nanoseconds since the epoch) that does not fit OTLP's 64-bit `*_unix_nano` fields: 2554-07-21T23:34:33.709551616Z
+const FAR: u128 = 1 << 64;
+/// 3000-01-01T00:00:00Z
+const Y3000: u128 = 32_503_680_000 * 1_000_000_000;
+
+/// `Timestamp::MAX` (9999-12-31T23:59:59.999999999Z) in nanoseconds
+fn ts_max() -> u128 {
+    emit::Timestamp::MAX.to_unix().as_nanos()
+}
+
+/// The `-far` classes hold an instant at or after 2^64 ns: what such an instant is *recorded as* is C13's subject
+/// (known finding c13-f6-time-wraps); here only the routing is observed — the logs signal is the catch-all and
+/// takes the event whatever its instants, a qualifying span / metric sample stays on its own signal.
 fn extent_variants() -> Vec<(&'static str, Vec<Ext>)> {
+    let max = ts_max();
     vec![
         ("none", vec![Ext::None]),
-        ("point", vec![Ext::Point(0), Ext::Point(1_700_000_000_123_456_789)]),
-        ("range", vec![Ext::Range(1_000, 2_000), Ext::Range(5_000_000_000, 5_000_000_000), Ext::Range(9_000_000_000, 3)]),
+        ("point", vec![Ext::Point(0), Ext::Point(1_700_000_000_123_456_789), Ext::Point(FAR - 1)]),
+        ("point-far", vec![Ext::Point(FAR), Ext::Point(Y3000), Ext::Point(max)]),
+        (
+            "range",
+            vec![Ext::Range(1_000, 2_000), Ext::Range(5_000_000_000, 5_000_000_000), Ext::Range(9_000_000_000, 3), Ext::Range(1_000, FAR - 1)],
+        ),
+        (
+            "range-far",
+            vec![
+                Ext::Range(1_000, Y3000),
+                Ext::Range(0, FAR),
+                Ext::Range(FAR, FAR),
+                Ext::Range(Y3000, max),
+                Ext::Range(max, max),
+                Ext::Range(1_700_000_000_000_000_000, max),
+                // reversed: only the start is out of the 64-bit range
+                Ext::Range(Y3000, 5),
+            ],
+        ),
     ]
 }
 
@@ -306,8 +344,9 @@ fn case_line(sig: u8, kinds: &[V], ext: &Ext, value: &Option<V>, agg: &Option<V>
     .to_string()
 }
 
-/// Exhaustive over (signal subset × kind class × extent class × value class × agg class) = 8·4·3·6·7 = 4032
-/// shape cells (× metric_name present/absent in the thorough tier); the concrete realisation of each class is
+/// Exhaustive over (signal subset × kind class × extent class × value class × agg class) = 8·4·5·6·7 = 6720
+/// shape cells (the extent classes none / point / range of the model, the latter two also with instants past
+/// the 64-bit nanosecond range) (× metric_name present/absent in the thorough tier); the concrete realisation of each class is
 /// drawn from the variant lists with the seeded PRNG (`reps` draws per cell). Cases are ordered by signal
 /// subset so that consecutive cases reuse the same live emitter.
 fn gen_c14(rng: &mut Rng, tier: Tier, n: usize) -> Vec<String> {
